@@ -36,9 +36,9 @@ func genSystematic(out *hx.Out, prop string) {
 	}
 	c := 0
 	for ci, cf := range cfgs {
-		for i := 0; i <= 18; i++ {
-			for j := 1; j <= 18; j += 1 {
-				for k := 0; k <= 18; k += 3 {
+		for i := 0; i <= 19; i++ {
+			for j := 1; j <= 19; j += 1 {
+				for k := 0; k <= 19; k += 3 {
 					out.P("#case sys-%s-%d-%d", prop, ci, c)
 					c++
 					out.P("tables %d", cf.ntab)
@@ -59,7 +59,7 @@ func genSystematic(out *hx.Out, prop string) {
 					for s := 0; s < k; s++ {
 						out.P("step x")
 					}
-					for s := 0; s < 20; s++ {
+					for s := 0; s < 22; s++ {
 						if (i+j+k)%2 == 0 {
 							out.P("step y")
 							out.P("step x")
